@@ -5,7 +5,11 @@ package main
 import (
 	"fmt"
 	"os"
+
+	"github.com/issue9/mux/v9"
 )
+
+func dumpTree(r *mux.Router[*H]) string { return "" }
 
 func (rn *runner) runLockCase(c *Case) {
 	fmt.Fprintln(os.Stderr, "the lockdisc family needs a harness built with -tags verif")
